@@ -90,6 +90,77 @@ def witness_wrapper(em, f, contract, harness_pre="", capture=True):
     return wname, text + harness
 
 
+
+def decl_order(f):
+    """(parameter names, local variable names) of a function in declaration order"""
+    ps = [p.get("name") for p in f.params]
+    ls = []
+
+    def walk(n):
+        if n.get("kind") == "VarDecl":
+            ls.append((n.get("name"), (n.get("type") or {}).get("qualType", "")))
+        for c in n.get("inner", []) or []:
+            walk(c)
+    if f.body is not None:
+        walk(f.body)
+    return ps, ls
+
+
+_PINNED = None
+
+
+def pinned_names(qname):
+    """declaration order of parameters and locals on the pinned tree (contracts/pinned_names.json, generated by tools/pin_names.py)"""
+    global _PINNED
+    if _PINNED is None:
+        try:
+            with open(os.path.join(os.path.dirname(os.path.abspath(__file__)), "..", "contracts", "pinned_names.json")) as fh:
+                _PINNED = json.load(fh)
+        except OSError:
+            _PINNED = {}
+    return _PINNED.get(qname)
+
+
+def rename_map(tu, unit):
+    """A contract names the target's parameters and locals as the pinned tree spells them.  When the working tree declares the pinned parameters and
+    locals, in the same order and with the same types (possibly with further locals in between), a renamed variable is the same variable: the contract
+    text follows the renaming (whole identifiers, never member names after . or ->).  Anything else leaves the text alone (the extraction then fails on
+    the unknown name: exit 2, never a violation)."""
+    pn = getattr(unit, "pinned_names", None) or pinned_names(unit.target)
+    if not pn or not (unit.loop_contracts or unit.ghost):
+        return {}
+    f = tu.func(unit.target)
+    ps, ls = decl_order(f)
+    pps, pls = pn[0], [tuple(x) for x in pn[1]]
+    if len(ps) != len(pps):
+        return {}
+    pairs = list(zip(pps, ps))
+    k = 0
+    for (pname, ptype) in pls:
+        # next current local of this type; one with the pinned name is preferred when it is still ahead
+        same = [j for j in range(k, len(ls)) if ls[j] == (pname, ptype)]
+        cand = same[0] if same else next((j for j in range(k, len(ls)) if ls[j][1] == ptype), None)
+        if cand is None:
+            return {}
+        pairs.append((pname, ls[cand][0]))
+        k = cand + 1
+    m = {}
+    for a, b in pairs:
+        if a != b:
+            if a in m and m[a] != b:
+                return {}
+            m[a] = b
+    return m
+
+
+def apply_renaming(text, m):
+    if not m or not isinstance(text, str):
+        return text
+    # simultaneous substitution (a swap of two names must not chain)
+    rx = re.compile(r"(?<![\w.>])(" + "|".join(re.escape(k) for k in sorted(m, key=len, reverse=True)) + r")(?!\w)")
+    return rx.sub(lambda mo: m[mo.group(1)] if not text[max(0, mo.start() - 2):mo.start()].endswith("->") else mo.group(1), text)
+
+
 import threading
 _BUILD_LOCK = threading.Lock()
 
@@ -110,6 +181,13 @@ def _build_bv(tu, unit, workdir, contract_override=None):
     if contract_override is not None:
         contracts[unit.target] = contract_override
     tgt_contract = contracts.pop(unit.target)
+    rmap = rename_map(tu, unit)
+    unit.renamed = dict(rmap)
+    loop_contracts_, ghost_ = unit.loop_contracts, unit.ghost
+    if rmap:
+        tgt_contract = apply_renaming(tgt_contract, rmap)
+        loop_contracts_ = {q_: ({k_: apply_renaming(v_, rmap) for k_, v_ in lc_.items()} if q_ == unit.target else lc_) for q_, lc_ in (unit.loop_contracts or {}).items()}
+        ghost_ = {q_: ([(a_, b_, apply_renaming(c_, rmap)) for (a_, b_, c_) in g_] if q_ == unit.target else g_) for q_, g_ in (unit.ghost or {}).items()}
     if unit.strip_restrict:
         # leaf proved under MORE alias patterns than its signature permits (restrict dropped)
         tgt_contract = "".join(l + "\n" for l in tgt_contract.splitlines() if "/* restrict */" not in l)
@@ -124,8 +202,8 @@ def _build_bv(tu, unit, workdir, contract_override=None):
     callee_contracts = {q: contracts[q] for q in unit.replace}
     auto = []
     for _round in range(6):
-        src, em = cxx2c.build_unit(tu, workdir, bodies, contracts=callee_contracts, loop_contracts=unit.loop_contracts,
-                                   spec_prelude=bvspec.prelude() + unit.spec_prelude, ghost=unit.ghost, stubs=getattr(unit, "stubs", None), defines=getattr(unit, "defines_text", ""))
+        src, em = cxx2c.build_unit(tu, workdir, bodies, contracts=callee_contracts, loop_contracts=loop_contracts_,
+                                   spec_prelude=bvspec.prelude() + unit.spec_prelude, ghost=ghost_, stubs=getattr(unit, "stubs", None), defines=getattr(unit, "defines_text", ""))
         # every function that is called but neither inlined nor replaced: a free helper function with a body (a refactoring that split the
         # target, say) is inlined with its real body and the extraction is repeated; anything else is an extraction error
         have = {tu.func(q).cname for q in bodies}
